@@ -79,6 +79,13 @@ impl RttCalcuator {
     }
 }
 
+#[cfg(feature = "verif-hooks")]
+impl RttCalcuator {
+    pub(crate) fn verif_values(&self) -> (Duration, Duration, Duration) {
+        (self.rto, self.srtt, self.rttvar)
+    }
+}
+
 #[cfg(test)]
 mod rtt_calculator_tests {
     use super::*;
